@@ -38,8 +38,14 @@
    Relaxation budget: "hard cap on the number of relaxations" is read as: a relaxation is performed
    only while fewer than relax_cap have been performed, and propagation ends as soon as the count
    reaches the cap (for relax_cap >= 1 this is "stop right after the relaxation that reaches the
-   cap"; for relax_cap = 0 no relaxation is ever performed, everything up to the first edge that
-   would be relaxed still happens).  RelaxBudget (props <= relax_cap) is an invariant of this machine.
+   cap"; for relax_cap = 0 no relaxation is ever performed).  Where exactly an exhausted budget is
+   noticed is stated by the code only: when the next out-edge is looked at, before the radius / layer
+   / EPS tests of that edge (this matters for relax_cap = 0 alone: propagation ends at the first
+   out-edge of the first expanded node, so no radius or layer hit is counted for it).  An earlier
+   version of this spec tested the budget after those skips; the thorough tier then disagreed with
+   the code on rhits / lhits / pops for relax_cap = 0 worlds whose first edges lie beyond the radius -
+   a demand the property does not make (DESIGN.md §9.3).  RelaxBudget (props <= relax_cap) is an
+   invariant of this machine.
 
    Numbers: activation values are integers in units of 1/D.  D = 2^22 ("dyadic" worlds: all factors
    are +-2^-k or 3, so the implementation's doubles are exact) or D = 2^12 5^3 (documented default
@@ -240,7 +246,11 @@ Relax ==
            inex == ~exact /\ Abs(c) + 3 >= EpsUnits
            adv == IF cur.i = Len(es) THEN "pop" ELSE "relax"
            cur2 == IF cur.i = Len(es) THEN NoCur ELSE [cur EXCEPT !.i = @ + 1]
-       IN IF d > cp.radius                                     \* radius cap [P, TT]
+       IN IF cp.relax # NoCap /\ cnt.props >= cp.relax         \* relaxation budget exhausted: checked when an out-edge
+          THEN /\ pc' = "fin" /\ cur' = NoCur                   \* is looked at, before the radius / layer / EPS tests [code]
+               /\ last' = [op |-> "relax", kind |-> "stop", v |-> v]
+               /\ UNCHANGED <<heap, acc, dist, ring, cnt, guard, hist>>
+          ELSE IF d > cp.radius                                \* radius cap [P, TT]
           THEN /\ cnt' = [cnt EXCEPT !.rhits = @ + 1] /\ pc' = adv /\ cur' = cur2
                /\ last' = [op |-> "relax", kind |-> "radius", v |-> v]
                /\ UNCHANGED <<heap, acc, dist, ring, guard, hist>>
@@ -252,10 +262,6 @@ Relax ==
           THEN /\ cnt' = [cnt EXCEPT !.cut = IF c # 0 \/ ~exact THEN @ + 1 ELSE @] /\ pc' = adv /\ cur' = cur2
                /\ last' = [op |-> "relax", kind |-> "eps", v |-> v]
                /\ UNCHANGED <<heap, acc, dist, ring, guard, hist>>
-          ELSE IF cp.relax # NoCap /\ cnt.props >= cp.relax    \* relaxation budget exhausted [T1c, TT]
-          THEN /\ pc' = "fin" /\ cur' = NoCur
-               /\ last' = [op |-> "relax", kind |-> "stop", v |-> v]
-               /\ UNCHANGED <<heap, acc, dist, ring, cnt, guard, hist>>
           ELSE LET a2 == acc[v] + c
                    under == Abs(a2) < NBU(cp)
                    p == IF under THEN PushF(heap, ring, Item(v, c), cp)
